@@ -110,7 +110,7 @@ let print_tx_frame server (op, final) payload =
 let do_ws role mode maxframe recvmax recvtext hex cuts =
   let server = role = "s" and isstream = mode = "s" in
   let cfg = { c_server = server; c_isstream = isstream; c_maxframe = n_of_string maxframe;
-              c_recvmax = eff_recvmax false server (n_of_string recvmax); c_recv_text = recvtext = "1";
+              c_recvmax = eff_recvmax c16_DIALER_COPIES_RECVMAX server (n_of_string recvmax); c_recv_text = recvtext = "1";
               c_allocmax = allocmax } in
   let d = bytes_of_hex hex in
   let ps = pieces d (parse_cuts cuts (List.length d)) in
@@ -125,7 +125,7 @@ let do_ws role mode maxframe recvmax recvtext hex cuts =
 let do_wssend role mode fragsize sendtext hex =
   let server = role = "s" and isstream = mode = "s" in
   let d = bytes_of_hex hex in
-  let frs = ws_send_frames isstream (sendtext = "1") (eff_fragsize false server (n_of_string fragsize)) d in
+  let frs = ws_send_frames isstream (sendtext = "1") (eff_fragsize c16_DIALER_COPIES_FRAGSIZE server (n_of_string fragsize)) d in
   let cnt = List.fold_left (fun a ((_, _), p) -> a + List.length p) 0 frs in
   Printf.printf "sent rv=0 n=%d\n" cnt;
   List.iter (fun ((op, fin), p) -> print_tx_frame server (op, fin) p) frs;
